@@ -1,6 +1,5 @@
 use core::mem;
 
-use crate::align_offset;
 
 use super::{Allocator, Error};
 
@@ -201,7 +200,9 @@ impl Options {
   #[inline]
   fn data_offset_in<H>(reserved: usize, unify: bool) -> usize {
     if unify {
-      let offset = align_offset::<H>(reserved as u32) as usize + mem::align_of::<H>();
+      // in `usize`: a reserved size in the last bytes below `u32::MAX` must not wrap around
+      let align = mem::align_of::<H>();
+      let offset = ((reserved + align - 1) & !(align - 1)) + align;
       offset + mem::size_of::<H>()
     } else {
       reserved + 1
